@@ -535,6 +535,10 @@ func buildShapes() {
 	expand1[pk.UUID, *pk.UUID](leafUUID())
 	expand1[pk.BitSet, *pk.BitSet](leafBitSet())
 	emit(erase(leafStringMaxChars()))
+	emit(erase(leafStringEveryLen()))
+	emit(erase(leafIdentifierEveryLen()))
+	emit(erase(leafByteArrayEveryLen()))
+	emit(erase(leafPluginMessageDataEveryLen()))
 	id := leafIdentifier()
 	id.name = "Identifier" // type alias of String: registered under its own name with its own alphabet
 	emit(erase(id))
@@ -570,7 +574,7 @@ func scanItems() []scanItem {
 	var items []scanItem
 	for _, e := range shapes {
 		if e.depth == 0 || scanComposite[e.name] {
-			if len(e.name) > 8 && e.name[:8] == "AryLong[" || e.name == "String(32767 characters)" {
+			if len(e.name) > 8 && e.name[:8] == "AryLong[" || e.name == "String(32767 characters)" || strings.Contains(e.name, "(every length") {
 				continue // large values: judged in enc/dec only
 			}
 			items = append(items, scanItem{e, 1 % e.n})
